@@ -322,6 +322,9 @@ func genPlan(seed uint64, idx int) *Plan {
 	}
 	if g.chance(1, 10) {
 		p.StaticECH = true
+		if idx%2 == 1 {
+			p.StaticECH, p.BootstrapECH = false, true
+		}
 		spec := &ECHSpec{ID: uint8(r.IntN(256)), PublicName: "public.static.test", KeySeed: r.IntN(1 << 20)}
 		for i := range p.Nodes {
 			p.Nodes[i].ECH = spec
@@ -560,6 +563,7 @@ func genPlan(seed uint64, idx int) *Plan {
 		}
 		p.Reqs = append(p.Reqs, q)
 	}
+	p.DialerResolver = idx%6 == 4
 	return p
 }
 
